@@ -41,12 +41,82 @@ pub fn install() {
     });
 }
 
+// ---------------------------------------------------------------------------------------------------------
+// Watchdog: a library call that never returns, or that allocates without bound, must not take the machine down
+// and must not be lost. Every guarded call marks its thread's slot as busy; a watchdog thread reports the call
+// that has been running too long (or the longest-running one when the process grows beyond the memory cap),
+// writes `<out>.abort.json` and exits the process with code 3. The driver turns that into a violation record.
+
+pub struct Slot {
+    /// milliseconds since process start at which the outermost guarded call began; 0 = idle
+    start_ms: std::sync::atomic::AtomicU64,
+    ctx: std::sync::Mutex<String>,
+}
+
+static SLOTS: std::sync::Mutex<Vec<std::sync::Arc<Slot>>> = std::sync::Mutex::new(Vec::new());
+static T0: std::sync::OnceLock<std::time::Instant> = std::sync::OnceLock::new();
+
+thread_local! {
+    static MY_SLOT: std::sync::Arc<Slot> = {
+        let s = std::sync::Arc::new(Slot { start_ms: std::sync::atomic::AtomicU64::new(0), ctx: std::sync::Mutex::new(String::new()) });
+        SLOTS.lock().unwrap().push(s.clone());
+        s
+    };
+}
+
+fn now_ms() -> u64 {
+    T0.get_or_init(std::time::Instant::now).elapsed().as_millis() as u64 + 1
+}
+
+/// Describes what the current thread is about to run (history id, step, operation) for the watchdog's report.
+pub fn set_context(ctx: String) {
+    MY_SLOT.with(|s| *s.ctx.lock().unwrap() = ctx);
+}
+
+pub fn start_watchdog(out_file: String, limit_s: u64, rss_limit_mb: u64) {
+    let _ = now_ms();
+    std::thread::spawn(move || loop {
+        std::thread::sleep(std::time::Duration::from_millis(250));
+        let now = now_ms();
+        let rss_mb = std::fs::read_to_string("/proc/self/statm").ok().and_then(|s| s.split_whitespace().nth(1).and_then(|x| x.parse::<u64>().ok())).map(|pages| pages * 4096 / (1 << 20)).unwrap_or(0);
+        let slots = SLOTS.lock().unwrap().clone();
+        let mut worst: Option<(u64, String)> = None;
+        for s in &slots {
+            let st = s.start_ms.load(std::sync::atomic::Ordering::SeqCst);
+            if st != 0 {
+                let el = now.saturating_sub(st);
+                if worst.as_ref().map(|w| el > w.0).unwrap_or(true) {
+                    worst = Some((el, s.ctx.lock().map(|c| c.clone()).unwrap_or_default()));
+                }
+            }
+        }
+        let hang = worst.as_ref().map(|w| w.0 > limit_s * 1000).unwrap_or(false);
+        let mem = rss_mb > rss_limit_mb;
+        if hang || mem {
+            let (el, ctx) = worst.unwrap_or((0, "<no guarded call in flight>".into()));
+            let kind = if mem { "memory" } else { "hang" };
+            let j = crate::json::J::obj().set("kind", crate::json::J::s(kind)).set("elapsed_ms", crate::json::J::i(el)).set("rss_mb", crate::json::J::i(rss_mb)).set("context", crate::json::J::s(&ctx));
+            let _ = std::fs::write(format!("{}.abort.json", out_file), j.to_string());
+            eprintln!("WATCHDOG: {} (rss {} MB, call running for {} ms): {}", kind, rss_mb, el, ctx);
+            crate::cfg::cleanup_scratch_base();
+            std::process::exit(3);
+        }
+    });
+}
+
 /// Runs `f`, converting an unwinding panic into `Err(PanicInfo)`.
 pub fn guard<T>(f: impl FnOnce() -> T) -> Result<T, PanicInfo> {
     LAST.with(|l| *l.borrow_mut() = None);
+    let outermost = DEPTH.with(|d| d.get()) == 0;
+    if outermost {
+        MY_SLOT.with(|s| s.start_ms.store(now_ms(), std::sync::atomic::Ordering::SeqCst));
+    }
     DEPTH.with(|d| d.set(d.get() + 1));
     let r = catch_unwind(AssertUnwindSafe(f));
     DEPTH.with(|d| d.set(d.get() - 1));
+    if outermost {
+        MY_SLOT.with(|s| s.start_ms.store(0, std::sync::atomic::Ordering::SeqCst));
+    }
     match r {
         Ok(v) => Ok(v),
         Err(_) => Err(LAST.with(|l| l.borrow_mut().take()).unwrap_or(PanicInfo {
